@@ -26,7 +26,7 @@ struct Event {
   int64_t a;
 };
 
-enum Strategy { ST_RR = 0, ST_UNIFORM, ST_STICKY, ST_PCT, ST_STARVE, ST_HOOKBIAS, ST_MAX };
+enum Strategy { ST_RR = 0, ST_UNIFORM, ST_STICKY, ST_PCT, ST_STARVE, ST_HOOKBIAS, ST_ENUM, ST_MAX };
 const char *strategy_name(int s);
 
 struct SchedConfig {
@@ -42,6 +42,11 @@ struct SchedConfig {
   long step_budget = 1000000;
   long est_steps = 400;        // for pct change points
   bool keep_events = true;
+  // ST_ENUM: the canonical (run-until-block) schedule with a preemption forced at the given decision indices
+  long enum_k[2] = {-1, -1};
+  int enum_c[2] = {0, 0};
+  long enum_spur_k = -1;   // ST_ENUM: inject one spurious wake-up when this decision index is reached
+  int enum_spur_c = 0;
 };
 
 enum FailKind { FAIL_NONE = 0, FAIL_DEADLOCK, FAIL_BUDGET, FAIL_UNJOINED, FAIL_WALL };
@@ -67,6 +72,7 @@ struct SchedResult {
   long probe_io_between_look_and_use = 0;
   long probe_spurious_consumed = 0;
   long probe_max_runnable = 0;
+  long decision_points = 0;               // scheduling points at which >= 2 threads could run
 };
 
 // ---- session control (called by the harness on the thread that will act as simulated main) ----
